@@ -1,14 +1,299 @@
-//! C12 — not implemented yet (stub).
-use crate::report::{Cfg, Meta, Report};
+//! C12 — all lookups between trace components balance.
+//!
+//! T-bus: challenge-free multiset recount of requests vs. responses on the main trace (tbus.rs).
+//! T-aux: the seven real auxiliary columns, built by the real `build_aux_segment` for random
+//! challenges, must start and end at their specified values.
+
+use crate::case::{AsmOutcome, Case, ExecOutcome};
+use crate::gen::{gen_case, tree_info, GenCfg};
+use crate::props::c03::{rand_quad, Quad};
+use crate::report::{merge_all, Cfg, Meta, Report};
+use crate::tbus::check_buses;
+use crate::tview::*;
+use crate::util::{catch, par_map, rng_for, Rng8, P};
+use processor::ExecutionTrace;
+use rand::Rng;
+use serde_json::json;
+use vm_core::{ExtensionOf, Felt, FieldElement, StarkField};
+use winter_prover::Trace;
 
 pub fn meta() -> Meta {
-    Meta { level: "exploration", rule: "stub".into(), assumptions: vec![] }
+    Meta {
+        level: "exploration",
+        rule: "each evaluation = one successful execution whose main trace was recounted by T-bus (every memory / bitwise / kernel-ROM / hasher request of decoder and stack rows matched as a tuple against the chiplet rows, range-check requests against the range table multiplicities) and whose 7 aux columns (real build_aux_segment, 2 random challenge vectors) were checked at the first and last row against their specified values; distinct = distinct (program feature class, set of bus message kinds present)".into(),
+        assumptions: vec![
+            "message tuple formats are taken from docs/src/design; the RESPAN absorb message is compared as 'absorbed batch = rate of the next hasher row'".into(),
+            "aux columns are not constrained by the AIR of this version (except b_range and the stack overflow column), so T-aux judges the column builders only".into(),
+        ],
+    }
 }
 
-pub fn run(_cfg: &Cfg) -> Report {
-    let mut rep = Report::new();
-    rep.inconclusive("not-implemented");
+const AUX_NAMES: [&str; 7] = ["dec_p1", "dec_p2", "dec_p3", "stack_p1", "b_range", "vt_chip", "b_chip"];
+
+/// Features of a trace that matter for the aux-column builders (used to name T-aux findings).
+pub fn features(tv: &TV, kernel_procs: usize) -> Vec<&'static str> {
+    let mut f = vec![];
+    let mut has = |name: &str| (0..tv.cycles).any(|r| crate::tair::op_name(tv.op(r)) == name);
+    if has("RESPAN") {
+        f.push("respan");
+    }
+    if has("PIPE") {
+        f.push("pipe");
+    }
+    if has("DYN") {
+        f.push("dyn");
+    }
+    if has("CALL") {
+        f.push("call");
+    }
+    if has("SYSCALL") {
+        f.push("syscall");
+    }
+    if kernel_procs >= 1 {
+        f.push(if kernel_procs >= 2 { "kernel>=2" } else { "kernel=1" });
+    }
+    f
+}
+
+pub fn check_trace(case: &Case, trace: &mut ExecutionTrace, class: &str, rng: &mut Rng8, rep: &mut Report) {
+    let kernel_procs = trace.program_info().kernel().proc_hashes().len();
+    let kernel: Vec<[u64; 4]> = trace
+        .program_info()
+        .kernel()
+        .proc_hashes()
+        .iter()
+        .map(|d| {
+            let w: [Felt; 4] = (*d).into();
+            [w[0].as_int(), w[1].as_int(), w[2].as_int(), w[3].as_int()]
+        })
+        .collect();
+    let prog_hash: [Felt; 4] = (*trace.program_hash()).into();
+    let len = trace.length();
+    // ---- T-bus
+    let mut bus_unbalanced = false;
+    let (feats, kinds, msgs) = {
+        let tv = TV::new(trace);
+        let (unmatched, stats, msgs) = crate::tbus::check_buses_full(&tv);
+        for (k, n) in &stats.kinds {
+            rep.count_n("bus_requests", k, *n);
+        }
+        bus_unbalanced = unmatched.iter().any(|u| u.relation != "range");
+        for u in unmatched.iter().take(12) {
+            rep.violation(
+                u.sig(),
+                format!("{} {} {} at row {}: tuple {:?} has no counterpart", u.relation, u.side, u.kind, u.row, u.tuple),
+                json!({"kind": "case", "case": case.to_json(), "row": u.row}),
+            );
+        }
+        let mut kinds: Vec<String> = stats.kinds.keys().cloned().collect();
+        kinds.sort();
+        (features(&tv, kernel_procs), kinds, msgs)
+    };
+    rep.eval(&format!("{class}|{}", kinds.join(",")));
+    rep.count("class", class);
+    // ---- T-aux
+    for _ in 0..2 {
+        let a: Vec<Quad> = rand_quad(rng);
+        let aux = match catch(|| trace.build_aux_segment::<Quad>(&[], &a)) {
+            Ok(Some(x)) => x,
+            Ok(None) => continue,
+            Err(p) => {
+                rep.violation(format!("aux-build-panic/{}", p.site()), p.message, json!({"kind": "case", "case": case.to_json()}));
+                return;
+            }
+        };
+        let last = len - 2;
+        // expected terminal values
+        let mut expect_first = [Quad::ONE; 7];
+        let mut expect_last = [Quad::ONE; 7];
+        // block hash table starts with the row of the program's root block: (parent 0, hash, 0, 0)
+        expect_first[1] = a[0] + a[2].mul_base(prog_hash[0]) + a[3].mul_base(prog_hash[1]) + a[4].mul_base(prog_hash[2]) + a[5].mul_base(prog_hash[3]);
+        // chiplets virtual table ends with one row per kernel procedure: (idx, root)
+        let mut vt = Quad::ONE;
+        for (i, k) in kernel.iter().enumerate() {
+            vt *= a[0]
+                + a[1].mul_base(Felt::new(i as u64))
+                + a[2].mul_base(Felt::new(k[0]))
+                + a[3].mul_base(Felt::new(k[1]))
+                + a[4].mul_base(Felt::new(k[2]))
+                + a[5].mul_base(Felt::new(k[3]));
+        }
+        expect_last[5] = vt;
+        // row-level attribution (taux.rs): which operation / table event makes a column deviate
+        let mut findings = vec![];
+        let absorb_skipped;
+        {
+            let tv = TV::new(trace);
+            absorb_skipped = crate::taux::check_b_chip(&tv, &aux, &a, &msgs, &mut findings);
+            crate::taux::check_decoder_tables(&tv, &aux, &mut findings);
+            crate::taux::check_vt_chip(&tv, &aux, &a, &kernel, &mut findings);
+        }
+        let mut attributed = [false; 7];
+        // an imbalance of the main trace itself (reported by T-bus) explains a wrong b_chip terminal
+        attributed[6] = bus_unbalanced;
+        for f in &findings {
+            for (c, n) in AUX_NAMES.iter().enumerate() {
+                if f.sig.starts_with(n) {
+                    attributed[c] = true;
+                }
+            }
+            rep.violation(f.sig.clone(), f.what.clone(), json!({"kind": "case", "case": case.to_json(), "row": f.row}));
+        }
+        for c in [0usize, 1, 2, 5, 6] {
+            rep.count("aux_checked", AUX_NAMES[c]);
+            let first_ok = aux.get(c, 0) == expect_first[c];
+            let last_ok = aux.get(c, last) == expect_last[c];
+            if !first_ok {
+                rep.violation(
+                    format!("aux-initial/{}", AUX_NAMES[c]),
+                    format!("{} does not start at its specified value", AUX_NAMES[c]),
+                    json!({"kind": "case", "case": case.to_json()}),
+                );
+            }
+            if !last_ok && !attributed[c] && c == 6 && absorb_skipped {
+                // the only rows that could not be analysed in isolation carry RESPAN absorb messages
+                rep.violation(
+                    "b_chip/absorb-pair-unbalanced@RESPAN".to_string(),
+                    "b_chip terminal value wrong; the unanalysed rows carry RESPAN absorb messages".to_string(),
+                    json!({"kind": "case", "case": case.to_json()}),
+                );
+            } else if !last_ok && !attributed[c] {
+                // terminal value wrong although every row-level check passed
+                let tag = if feats.is_empty() { "plain".to_string() } else { feats.join("+") };
+                rep.violation(
+                    format!("aux-terminal-unattributed/{}", AUX_NAMES[c]),
+                    format!("{} does not reach its specified terminal value and no row-level check explains it (program features: {tag})", AUX_NAMES[c]),
+                    json!({"kind": "case", "case": case.to_json()}),
+                );
+            }
+            if last_ok {
+                rep.count("aux_terminal_ok", AUX_NAMES[c]);
+            } else {
+                rep.count("aux_terminal_wrong", AUX_NAMES[c]);
+            }
+        }
+    }
+    let _ = P;
+}
+
+/// Programs aimed at one talker each.
+pub fn feature_case(rng: &mut Rng8, which: usize) -> (String, Case) {
+    let f = |rng: &mut Rng8| rng.gen::<u64>() % P;
+    let u = |rng: &mut Rng8| rng.gen::<u32>() as u64;
+    let names = ["plain", "mem", "mem-stream", "pipe", "hperm", "bitwise", "u32-range", "respan", "loop", "split", "call", "syscall1", "syscall3-unused", "dynexec", "dyncall", "mtree", "deep", "locals", "rcomb", "nested-calls"];
+    let name = names[which % names.len()];
+    let mut c = Case::default();
+    match name {
+        "plain" => c.src = format!("begin push.{} push.{} add mul swap drop end", f(rng), f(rng)),
+        "mem" => {
+            let a = rng.gen_range(0..4u64);
+            c.src = format!("begin push.{} mem_store.{a} mem_load.{a} padw mem_loadw.{} push.1.2.3.4 mem_storew.{a} dropw mem_load.{} push.{} mem_load drop drop drop dropw end", f(rng), a + 1, a, a)
+        }
+        "mem-stream" => c.src = format!("begin push.1.2.3.4 mem_storew.10 dropw push.5.6.7.8 mem_storew.11 dropw push.10 padw padw padw mem_stream hperm mem_stream dropw dropw dropw drop end"),
+        "pipe" => {
+            c.advice_stack = (0..16).map(|_| f(rng)).collect();
+            c.src = "begin push.20 padw padw padw adv_pipe hperm adv_pipe dropw dropw dropw drop mem_load.21 drop end".into()
+        }
+        "hperm" => c.src = format!("begin push.{}.{}.{}.{} hperm hmerge push.{} hperm hash dropw end", f(rng), f(rng), f(rng), f(rng), f(rng)),
+        "bitwise" => c.src = format!("begin push.{} push.{} u32and push.{} u32xor push.{} u32or push.{} u32not u32popcnt drop end", u(rng), u(rng), u(rng), u(rng), u(rng)),
+        "u32-range" => c.src = format!("begin push.{} push.{} u32wrapping_add push.{} u32overflowing_mul drop push.{} u32split drop u32divmod.7 drop drop push.{} u32assert drop end", u(rng), u(rng), u(rng), f(rng), u(rng)),
+        "respan" => {
+            let n = rng.gen_range(70..300);
+            let body: String = (0..n).map(|i| if i % 3 == 0 { format!("push.{} ", f(rng)) } else { "add ".to_string() }).collect();
+            c.src = format!("begin {body} end")
+        }
+        "loop" => c.src = format!("begin push.{} dup.0 neq.0 while.true sub.1 dup.0 neq.0 end drop end", rng.gen_range(0..6)),
+        "split" => c.src = format!("begin push.{} if.true push.3 else push.4 push.5 add end drop end", rng.gen_range(0..2)),
+        "call" => c.src = "proc.f push.7 add end begin call.f push.2 mul call.f end".into(),
+        "syscall1" => {
+            c.kernel = Some("export.k0 push.3 add end".into());
+            c.src = "begin syscall.k0 syscall.k0 end".into()
+        }
+        "syscall3-unused" => {
+            c.kernel = Some("export.k0 push.3 add end export.k1 push.4 mul end export.k2 push.5 drop end".into());
+            c.src = if rng.gen_bool(0.5) { "begin syscall.k1 end".into() } else { "begin push.1 drop end".into() }
+        }
+        "dynexec" => c.src = "proc.f push.7 add end begin procref.f dynexec dropw end".into(),
+        "dyncall" => c.src = "proc.f push.7 drop end begin procref.f dyncall dropw end".into(),
+        "mtree" => {
+            let d = rng.gen_range(1..5usize);
+            let leaves: Vec<[u64; 4]> = (0..1usize << d).map(|_| [f(rng), f(rng), f(rng), f(rng)]).collect();
+            let (depth, root) = tree_info(&leaves);
+            let i = rng.gen_range(0..leaves.len());
+            let nv = [f(rng), f(rng), f(rng), f(rng)];
+            c.merkle_trees = vec![leaves];
+            c.src = format!(
+                "begin push.{}.{}.{}.{} push.{i} push.{depth} mtree_get dropw push.{}.{}.{}.{} swapw push.{i} push.{depth} mtree_set dropw dropw end",
+                root[0], root[1], root[2], root[3], nv[0], nv[1], nv[2], nv[3]
+            )
+        }
+        "deep" => {
+            c.stack = (0..rng.gen_range(17..40)).map(|_| f(rng)).collect();
+            c.src = "begin push.1 push.2 push.3 swap drop add movup.9 end".into()
+        }
+        "locals" => c.src = "proc.f.2 push.5 loc_store.0 push.1.2.3.4 loc_storew.1 dropw loc_load.0 padw loc_loadw.1 dropw drop end begin exec.f exec.f end".into(),
+        "rcomb" => c.src = "begin padw padw padw push.1000 push.1001 push.1002 movdn.14 movdn.14 movdn.14 rcomb_base rcomb_base dropw dropw dropw end".into(),
+        _ => {
+            c.kernel = Some("export.k0 push.3 add end".into());
+            c.src = "proc.g push.1 add syscall.k0 end proc.f call.g push.2 add end begin call.f call.g end".into()
+        }
+    }
+    (name.to_string(), c)
+}
+
+pub fn run_case(case: &Case, class: &str, rng: &mut Rng8, rep: &mut Report) {
+    let prog = match case.assemble() {
+        AsmOutcome::Ok(p) => p,
+        _ => {
+            rep.count("outcome", &format!("asm-fail:{class}"));
+            return;
+        }
+    };
+    let mut trace = match case.execute(&prog) {
+        ExecOutcome::Ok(t) => t,
+        other => {
+            rep.count("outcome", &format!("{}:{class}", other.class()));
+            return;
+        }
+    };
+    rep.count("outcome", "ok");
+    check_trace(case, &mut trace, class, rng, rep);
+    if rep.samples.len() < 3 {
+        rep.sample(json!({"class": class, "src": crate::report::truncate(&case.src, 200), "trace_len": trace.length()}));
+    }
+}
+
+pub fn run(cfg: &Cfg) -> Report {
+    let shards = 64;
+    let per = cfg.n(160, 4000);
+    let reports = par_map(shards, |sh| {
+        let mut rng = rng_for(cfg.seed, "C12", sh as u64);
+        let mut rep = Report::new();
+        for i in 0..per {
+            if i % 2 == 0 {
+                let (name, case) = feature_case(&mut rng, sh + i / 2);
+                run_case(&case, &name, &mut rng, &mut rep);
+            } else {
+                let size = rng.gen_range(4..50);
+                let mut gc = GenCfg::random(&mut rng, size);
+                gc.mem |= i % 4 == 1;
+                gc.crypto |= i % 4 == 3;
+                let case = gen_case(&mut rng, &gc);
+                run_case(&case, "generated", &mut rng, &mut rep);
+            }
+        }
+        rep
+    });
+    let mut rep = merge_all(reports);
+    rep.floor(rep.hist_len("bus_requests") >= 20, "at-least-20-bus-message-kinds");
+    rep.floor(rep.hist_len("class") >= 18, "at-least-18-feature-classes");
+    rep.floor(rep.get_count("outcome", "ok") >= 200, "200-traces");
     rep
 }
 
-pub fn replay(_v: &serde_json::Value, _rep: &mut Report) {}
+pub fn replay(v: &serde_json::Value, rep: &mut Report) {
+    if let Some(case) = v.get("case").and_then(Case::from_json) {
+        let mut rng = rng_for(0, "C12-replay", 0);
+        run_case(&case, "replay", &mut rng, rep);
+    }
+}
